@@ -61,6 +61,9 @@ def run(tier):
     # specification growth hosted here (bootstrap contact bookkeeping): conformance, informational (MODEL-DRIFT, never a VIOLATION)
     import growth_contact
     growth_contact.run(rep, wd, big)
+    # specification growth hosted here (Sybil detector): conformance, informational (MODEL-DRIFT, never a VIOLATION)
+    import growth_sybil
+    growth_sybil.run(rep, wd, big)
     return rep.finish(
         rule="a case = one admission decision (API level, configuration, candidate's level keys + ASN + hosting flag, outcome, "
              "error class) or one routing-table snapshot of the connection path; distinct by content; each judged by "
